@@ -78,6 +78,23 @@ def facts(src):
         register = T.translate_register(fn, 'clear_mode_registry')
     except Exception as e:
         problems.append('config/views.py register action not recognised: %s' % e)
+    try:
+        fn = m.find('ViewsConfiguratorMixin.add_view.register_view')
+        if fn is None:
+            raise T.Unknown('add_view.register_view not found')
+        T.register_view_clears(fn)
+    except Exception as e:
+        problems.append('config/views.py register_view: %s' % e)
+    reads_only = True
+    try:
+        mv = F.Module(src, 'pyramid/view.py')
+        fn = mv.find('_call_view')
+        if fn is None:
+            raise T.Unknown('_call_view not found')
+        T.call_view_reads_only(fn)
+    except Exception as e:
+        reads_only = False
+        problems.append('view.py:_call_view does not just iterate over the cached candidate list: %s' % e)
     if register is None:
         register = ['RegisterAdapter', 'Clear clear_mode_registry']
     coq = (F.HEADER + 'Require Import Verif.Lib.C15Prog.\n'
@@ -90,9 +107,11 @@ def facts(src):
            'Definition clear_mode_fallback : clear_mode := %s.\n'
            '(* translated from the register action of add_view (config/views.py) *)\n'
            'Definition register_prog : list instr :=\n  %s.\n'
-           % ('; '.join(str(T.VIEW_TYPE_IDS[n]) for n in vt), T.coq_prog(lookup), mode, fmode, T.coq_prog(register)))
+           '(* _call_view only iterates over the candidate list it got from _find_views (the cached object) *)\n'
+           'Definition call_view_reads_only : bool := %s.\n'
+           % ('; '.join(str(T.VIEW_TYPE_IDS[n]) for n in vt), T.coq_prog(lookup), mode, fmode, T.coq_prog(register), F.coq_bool(reads_only)))
     summary.update({'lookup_prog': T.coq_prog(lookup), 'register_prog': T.coq_prog(register).replace('clear_mode_registry', mode),
-                    'clear_mode': mode, 'clear_mode_fallback': fmode, 'view_types': vt, 'params': T.flat_params(lookup)})
+                    'clear_mode': mode, 'clear_mode_fallback': fmode, 'view_types': vt, 'params': T.flat_params(lookup), 'call_view_reads_only': reads_only})
     return {'coq': coq, 'summary': summary, 'problems': problems}
 
 
@@ -106,6 +125,113 @@ def L(req, ctx, name=0, inj=None):
 
 def Rg(rq, ctx, name, sec, tag, inj=None, inj2=None):
     return {'t': 'R', 'rq': rq, 'ctx': ctx, 'name': name, 'sec': sec, 'tag': tag, 'inj': inj or [], 'inj2': inj2 or []}
+
+
+# request history cases: {'hist': [steps]}
+#   request      : {'t':'Q', 'req':1|3, 'ctx':'A'.., 'name':0|1, 'm':'GET'|'POST'|'PUT'}      (through _call_view)
+#   registration : {'t':'V', 'rq':1|2, 'ctx':None|'A'.., 'name':0|1, 'pred':None|'GET'|'POST', 'tag':int}
+METHODS = ['GET', 'POST', 'PUT']
+PREDS = [None, 'GET', 'POST']
+
+
+def Q(req, ctx, m, name=0):
+    return {'t': 'Q', 'req': req, 'ctx': ctx, 'name': name, 'm': m}
+
+
+def V(rq, ctx, pred, tag, name=0):
+    return {'t': 'V', 'rq': rq, 'ctx': ctx, 'name': name, 'pred': pred, 'tag': tag}
+
+
+def mvtag(T):
+    return 100000 + T[0] * 10000 + T[1] * 10 + T[2]
+
+
+class Book:
+    """harness-side bookkeeping of what the registrations of a history put into the adapter registry: per triad
+    (request type, context type, name) the members by predicate.  One member -> the view sits in the IView slot; two or
+    more (different predicates) -> one MultiView OBJECT sits in the IMultiView slot (tag mvtag(triad), identity kept
+    when members are added); same predicate -> the member is replaced (override)."""
+    def __init__(self, unreg):
+        self.tri = {}
+        self.unreg = unreg
+        self.kinds = []
+
+    def register(self, v):
+        T = (v['rq'], 0 if v['ctx'] is None else CTX[v['ctx']], v['name'])
+        mem = self.tri.setdefault(T, {})
+
+        def sl(vt):
+            return [T[0], T[1], vt, T[2]]
+        if not mem or (len(mem) == 1 and v['pred'] in mem):
+            self.kinds.append('hist-override' if mem else 'hist-first-view')
+            mem[v['pred']] = v['tag']
+            return ([[sl(0), []], [sl(1), []]] if self.unreg else []) + [[sl(0), [v['tag']]]]
+        self.kinds.append('hist-multiview-conversion' if len(mem) == 1 else
+                          'hist-multiview-member-override' if v['pred'] in mem else 'hist-multiview-add')
+        mem[v['pred']] = v['tag']
+        return [[sl(0), []], [sl(1), []], [sl(2), [mvtag(T)]]]
+
+    def table(self, m):
+        out = []
+        for T, mem in sorted(self.tri.items()):
+            if len(mem) == 1:
+                (p, g), = mem.items()
+                out.append([g, [g] if p is None or p == m else []])
+            elif mem:
+                a = mem.get(m) if m in mem else mem.get(None)
+                out.append([mvtag(T), [a] if a is not None else []])
+        return out
+
+
+def gen_hist(rng):
+    tag = [0]
+    tri = []
+    steps = []
+
+    def reg():
+        if tri and rng.random() < 0.6:
+            rq, ctx, name = rng.choice(tri)
+        else:
+            rq = 1 if rng.random() < 0.85 else 2
+            ctx = rng.choice([None, 'A', 'A', 'B', 'B', 'C'])
+            name = 0 if rng.random() < 0.9 else 1
+            tri.append((rq, ctx, name))
+        tag[0] += 1
+        return V(rq, ctx, rng.choice([None, None, 'GET', 'POST', 'POST']), tag[0], name)
+    for _ in range(rng.choice([1, 2, 2, 3, 4])):
+        steps.append(reg())
+    lastq = None
+    for _ in range(rng.choice([3, 4, 5, 6, 8, 10])):
+        if rng.random() < 0.62:
+            if lastq is not None and rng.random() < 0.65:
+                q = dict(lastq)
+                q['m'] = rng.choice(METHODS)
+            else:
+                q = Q(rng.choice([1, 1, 1, 3]), rng.choice(['A', 'B', 'B', 'C', 'C', 'D']), rng.choice(METHODS),
+                      0 if rng.random() < 0.9 else 1)
+            lastq = q
+            steps.append(q)
+        else:
+            steps.append(reg())
+    return {'hist': steps}
+
+
+def hist_scenarios():
+    """the two reviewer scenarios and their neighbours, written out"""
+    out = []
+    # a triad with one view gets a second view with different predicates (-> MultiView) after the cache is warm
+    out.append({'hist': [V(1, 'A', None, 1), Q(1, 'A', 'GET'), V(1, 'A', 'POST', 2), Q(1, 'A', 'POST'), Q(1, 'A', 'GET')]})
+    # a further view added to an existing MultiView; then a member overridden
+    out.append({'hist': [V(1, 'A', None, 1), V(1, 'A', 'POST', 2), Q(1, 'A', 'GET'), Q(1, 'A', 'POST'),
+                         V(1, 'A', 'GET', 3), Q(1, 'A', 'GET'), V(1, 'A', 'POST', 4), Q(1, 'A', 'POST'), Q(1, 'A', 'PUT')]})
+    # same-predicate override of a single view
+    out.append({'hist': [V(1, 'A', 'GET', 1), Q(1, 'A', 'GET'), V(1, 'A', 'GET', 2), Q(1, 'A', 'GET'), Q(1, 'A', 'POST')]})
+    # specific guarded view + general unguarded view on different context types of one resource:
+    # a request only the general one accepts must not change who answers the next request
+    out.append({'hist': [V(1, 'B', 'POST', 1), V(1, 'A', None, 2), Q(1, 'B', 'GET'), Q(1, 'B', 'POST'), Q(1, 'B', 'GET')]})
+    out.append({'hist': [V(1, 'C', 'POST', 1), V(1, 'B', 'GET', 2), V(1, None, None, 3),
+                         Q(1, 'C', 'PUT'), Q(1, 'C', 'GET'), Q(1, 'C', 'POST'), Q(1, 'C', 'GET'), Q(3, 'C', 'POST')]})
+    return out
 
 
 SRO_LEN = {1: 2, 2: 2, 3: 4, 'A': 3, 'B': 4, 'C': 5, 'D': 4, 'E': 3}
@@ -244,7 +370,7 @@ def generate(rng, tier, n):
         for i in range(8):
             yield {'soak': rng.randrange(10 ** 6), 'threads': rng.choice([3, 4, 6, 8]), 'regs': 120}
             k += 1
-    for c in refuted_schedules():
+    for c in refuted_schedules() + hist_scenarios():
         yield c
         k += 1
     sysl = systematic()
@@ -256,12 +382,12 @@ def generate(rng, tier, n):
         yield c
         k += 1
     while k < n:
-        yield Gen(rng).case()
+        yield gen_hist(rng) if k % 3 == 0 else Gen(rng).case()
         k += 1
 
 
 def targeted(broken, disagreements, rng):
-    out = list(refuted_schedules())
+    out = list(refuted_schedules()) + hist_scenarios()
     # the stale-write schedule with the registration at every internal point and for several keys
     for req, ctx in ((1, 'A'), (1, 'C'), (3, 'B')):
         n = npoints(req, ctx)
@@ -307,6 +433,24 @@ def valid(case):
         if isinstance(case, dict) and 'soak' in case:
             return set(case) == {'soak', 'threads', 'regs'} and all(isinstance(case[x], int) for x in case) \
                 and 1 <= case['threads'] <= 32 and 1 <= case['regs'] <= 1000
+        if isinstance(case, dict) and 'hist' in case:
+            if set(case) != {'hist'} or not isinstance(case['hist'], list) or len(case['hist']) > 40:
+                return False
+            for st in case['hist']:
+                if not isinstance(st, dict):
+                    return False
+                if st.get('t') == 'Q':
+                    if set(st) != {'t', 'req', 'ctx', 'name', 'm'} or st['req'] not in (1, 3) or st['m'] not in METHODS \
+                            or st['ctx'] not in ('A', 'B', 'C', 'D', 'E') or st['name'] not in (0, 1):
+                        return False
+                elif st.get('t') == 'V':
+                    if set(st) != {'t', 'rq', 'ctx', 'name', 'pred', 'tag'} or st['rq'] not in (1, 2) \
+                            or st['pred'] not in PREDS or st['ctx'] not in (None, 'A', 'B', 'C', 'D', 'E') \
+                            or st['name'] not in (0, 1) or not isinstance(st['tag'], int) or not (0 < st['tag'] < 90000):
+                        return False
+                else:
+                    return False
+            return True
         if not isinstance(case, dict) or set(case) != {'init', 'ops'}:
             return False
         if not _ops_ok(case['init'], 0) or not _ops_ok(case['ops'], 0):
@@ -349,8 +493,18 @@ def to_wire(case):
     if not _sro_tbl:
         setup('quick')
     if 'soak' in case:
-        return [_sro_tbl, [], []]
-    return [_sro_tbl, [u for r in case['init'] for u in _wire_updates(r)], _wire_ops(case['ops'], [0])]
+        return [_sro_tbl, [], [], []]
+    if 'hist' in case:
+        book = Book(_impl['override_unregisters'])
+        ops, ans = [], []
+        for oid, st in enumerate(case['hist']):
+            if st['t'] == 'Q':
+                ops.append([0, oid, [st['req'], CTX[st['ctx']], st['name']], []])
+                ans.append([oid, book.table(st['m'])])
+            else:
+                ops.append([1, oid, book.register(st), [], []])
+        return [_sro_tbl, [], ops, ans]
+    return [_sro_tbl, [u for r in case['init'] for u in _wire_updates(r)], _wire_ops(case['ops'], [0]), []]
 
 
 def _srt(cache):
@@ -361,10 +515,13 @@ def from_wire(case, raw):
     if 'soak' in case:
         # free-running threads are a TEST (no model of the schedule): the expected observation is "no bad answer"
         return {'model': ['soak', 0, 1], 'spec': ['soak']}
-    if raw == [['bad']] or not isinstance(raw, list) or len(raw) != 7:
+    if raw == [['bad']] or not isinstance(raw, list) or len(raw) != 9:
         return {'model': ['MODEL-BAD', raw], 'spec': None}
-    threads, spawn, cache, expects, quiet, table, tlen = raw
-    return {'model': [threads, spawn, _srt(cache)], 'spec': [expects, quiet, _srt(table), spawn, tlen]}
+    threads, spawn, cache, expects, quiet, table, tlen, manswers, sanswers = raw
+    # model side of the observation: threads, spawn order, final cache, who answered each request, and -- in the place
+    # of "what a freshly built application answers" -- the answer the declarative expectation demands
+    return {'model': [threads, spawn, _srt(cache), manswers, sanswers],
+            'spec': [expects, quiet, _srt(table), spawn, tlen, sanswers]}
 
 
 # ------------------------------------------------------------ implementation
@@ -442,6 +599,17 @@ def setup(tier):
             self.__dict__['_c15_cache'] = v
 
     classes = {'A': O15A, 'B': O15B, 'C': O15C, 'D': O15D, 'E': O15E}
+    # harness-side patch of the module global (no source change): record what each lookup made by _call_view returned,
+    # as a copy taken at return time
+    if not hasattr(pview._find_views, 'c15_orig'):
+        orig = pview._find_views
+
+        def recording_find_views(*a, **kw):
+            r = orig(*a, **kw)
+            _impl['last_found'] = None if r is None else list(r)
+            return r
+        recording_find_views.c15_orig = orig
+        pview._find_views = recording_find_views
     _impl.update(Configurator=Configurator, Reg=Reg, IRequest=IRequest, IRouteRequest=IRouteRequest, pview=pview,
                  implementedBy=implementedBy, Interface=Interface, classes=classes, tier=tier)
     # resolution orders are an oracle input of the model: taken from zope.interface itself
@@ -539,6 +707,9 @@ class _World:
         self.spawn = []
         self.counter = None
         self.ids = {}
+        self.mvtags = {}
+        self.keep = []
+        self.answers = []
 
     def number(self, ops, counter):
         for o in ops:
@@ -559,6 +730,71 @@ class _World:
                              name=NAMES[r['name']], route_name='r1' if r['rq'] == 2 else None,
                              permission='p' if r['sec'] else None)
 
+    def add_view_pred(self, v):
+        from pyramid.response import Response
+        from pyramid.interfaces import IMultiView, IViewClassifier
+        tag = v['tag']
+
+        def view(context, request):
+            r = Response('')
+            r.headers['X-C15'] = str(tag)
+            return r
+        view.c15_tag = tag
+        self.config.add_view(view, context=None if v['ctx'] is None else _impl['classes'][v['ctx']],
+                             name=NAMES[v['name']], route_name='r1' if v['rq'] == 2 else None,
+                             request_method=v['pred'])
+        T = (v['rq'], 0 if v['ctx'] is None else CTX[v['ctx']], v['name'])
+        ctx_iface = _impl['Interface'] if v['ctx'] is None else self.ctx[v['ctx']]
+        mv = self.real.registered((IViewClassifier, self.req[v['rq']], ctx_iface), IMultiView, name=NAMES[v['name']])
+        if mv is not None:
+            self.mvtags[id(mv)] = mvtag(T)
+            self.keep.append(mv)
+
+    def request(self, st):
+        """one request through pyramid.view._call_view -> ([] | [tag of the view that answered], crashed)"""
+        from pyramid.request import Request
+        from pyramid.exceptions import PredicateMismatch
+        from zope.interface import providedBy
+        r = Request.blank('/')
+        r.method = st['m']
+        r.registry = self.reg
+        if st['req'] != 1:
+            r.request_iface = self.req[st['req']]
+        ctx = _impl['classes'][st['ctx']]()
+        _impl['last_found'] = None
+        try:
+            resp = _impl['pview']._call_view(self.reg, r, ctx, providedBy(ctx), NAMES[st['name']])
+            return ([] if resp is None else [int(resp.headers['X-C15'])]), 0
+        except PredicateMismatch:
+            return [], 0
+        except Exception:
+            return [], 1
+
+    def hist_request(self, st, oid):
+        self.spawn.append(oid)
+        fr = {'inj': {}, 'n': 0}
+        self.stack.append(fr)
+        try:
+            ans, crashed = self.request(st)
+        finally:
+            self.stack.pop()
+        found = _impl.get('last_found')
+        self.threads.append([0, self.tags(found), crashed, 1, fr['n']])
+        self.answers.append(ans)
+
+    def hist_register(self, st, oid):
+        self.spawn.append(oid)
+        self.reg.adapters = self.real
+        crashed = 0
+        try:
+            self.add_view_pred(st)
+        except Exception:
+            crashed = 1
+        finally:
+            self.reg.adapters = self.proxy
+        self.threads.append([1, [], crashed, 1, 0])
+        self.answers.append(0)
+
     def start(self):
         self.reg.__dict__['_c15_world'] = self
         self.reg.adapters = self.proxy
@@ -576,6 +812,9 @@ class _World:
             return []
         out = []
         for v in vs:
+            if id(v) in self.mvtags:
+                out.append(self.mvtags[id(v)])
+                continue
             f = getattr(v, '__original_view__', v)
             out.append(getattr(f, 'c15_tag', 999999))
         return [out]
@@ -716,18 +955,41 @@ def run_soak(case):
     return ['soak', len(bad), cache_ok]
 
 
+def run_hist(case):
+    """a history of requests (through _call_view) and registrations on ONE application; next to each answer, what a
+    freshly built application holding the same registrations answers to that single request"""
+    w = _World()
+    w.start()
+    fresh = []
+    for oid, st in enumerate(case['hist']):
+        if st['t'] == 'Q':
+            w.hist_request(st, oid)
+            f = _World()
+            for prev in case['hist'][:oid]:
+                if prev['t'] == 'V':
+                    f.add_view_pred(prev)
+            a, crashed = f.request(st)
+            fresh.append(['FRESH-CRASH'] if crashed else a)
+        else:
+            w.hist_register(st, oid)
+            fresh.append(0)
+    return [w.threads, w.spawn, w.cache(), w.answers, fresh]
+
+
 def run_impl(case):
     if not _impl:
         setup('quick')
     if 'soak' in case:
         return run_soak(case)
+    if 'hist' in case:
+        return run_hist(case)
     w = _World()
     for r in case['init']:
         w.add_view(r)
     w.number(case['ops'], [0])
     w.start()
     w.run_ops(case['ops'])
-    return [w.threads, w.spawn, w.cache()]
+    return [w.threads, w.spawn, w.cache(), [0] * len(w.threads), [0] * len(w.threads)]
 
 
 # ------------------------------------------------------------ judging
@@ -739,16 +1001,23 @@ def spec_holds(case, obs, spec):
         return None
     if 'soak' in case:
         return obs == ['soak', 0, 1]
-    expects, quiet, table, mspawn, _tlen = spec
-    if not isinstance(obs, list) or len(obs) != 3 or (obs and obs[0] == 'HARNESS-EXC'):
+    expects, quiet, table, mspawn, _tlen, sanswers = spec
+    if not isinstance(obs, list) or len(obs) != 5 or (obs and obs[0] == 'HARNESS-EXC'):
         return None
-    threads, spawn, cache = obs
+    threads, spawn, cache, answers, fresh = obs
+    # history independence, judged without the model: every request is answered like a freshly built application
+    # holding the same registrations answers that single request
+    if answers != fresh:
+        return False
     if spawn != mspawn or len(threads) != len(expects):
         return None          # another set of operations ran: the expectations of the model's trace do not transfer
     for t, e in zip(threads, expects):
         if e and t[0] == 0:
             if t[2] or t[1] != e:
                 return False
+    for a, e in zip(answers, sanswers):
+        if e != 0 and e != -1 and a != e:
+            return False                        # not answered by the first accepting candidate of lookup_all
     if quiet:
         tbl = {tuple(k): v for k, v in table}
         for k, vs in cache:
@@ -778,6 +1047,9 @@ def nontrivial(case, obs):
     try:
         if 'soak' in case:
             return True
+        if 'hist' in case:
+            qs = [a for a in obs[3] if a != 0]
+            return len(qs) >= 2 and any(a for a in qs) and any(st['t'] == 'V' for st in case['hist'][1:])
         threads = obs[0]
         return any(t[0] == 0 and t[1] and t[1][0] for t in threads) and _depth(case['ops']) >= 1 and len(threads) >= 2
     except Exception:
@@ -789,7 +1061,29 @@ def kinds(case, obs):
     try:
         if 'soak' in case:
             return ['soak-free-running-threads-%d' % case['threads']]
-        threads, spawn, cache = obs
+        if 'hist' in case:
+            b = Book(False)
+            k.append('hist')
+            seenq = False
+            for st in case['hist']:
+                if st['t'] == 'V':
+                    b.register(st)
+                    if seenq:
+                        k.append(b.kinds[-1] + '-after-request')
+                else:
+                    seenq = True
+            k += sorted(set(b.kinds))
+            for t, a in zip(obs[0], obs[3]):
+                if a == 0:
+                    continue
+                if not a:
+                    k.append('hist-nothing-answers')
+                elif t[1] and t[1][0] and len(t[1][0]) > 1:
+                    k.append('hist-several-candidates')
+            if any(t[0] == 0 and t[4] == 0 for t in obs[0]):
+                k.append('hist-cache-hit')
+            return sorted(set(k))
+        threads, spawn, cache = obs[:3]
         lk = [t for t in threads if t[0] == 0]
         k.append('threads-%s' % (len(threads) if len(threads) < 8 else '8+'))
         k.append('nesting-%d' % _depth(case['ops']))
